@@ -27,6 +27,10 @@ for l in log:
     name = f"self_{prop}_{sha}"
     d = f"/verif/seeded/{name}"
     os.makedirs(d, exist_ok=True)
+    mp = d + "/meta.json"
+    if os.path.exists(mp) and json.load(open(mp)).get("rebased"):
+        out.append((name, prop))  # hand-made semantic revert: keep
+        continue
     diff = subprocess.run(f"git -C /repo diff {sha} {sha}~1", shell=True, capture_output=True, text=True).stdout
     open(d + "/patch.diff", "w").write(diff)
     json.dump({"id": name, "breaks_property": prop, "origin": "reverted fix commit " + sha + " of /repo (not produced by a sub-agent)",
